@@ -143,6 +143,22 @@ func pointerize(t, base reflect.Type, v reflect.Value) reflect.Value {
 	}
 
 	for t != v.Type() {
+		if t.Kind() != reflect.Ptr {
+			// no number of pointers around v gives a t
+			break
+		}
+		if v.Kind() == reflect.Ptr && v.Type().ConvertibleTo(t) {
+			// named pointer type
+			return v.Convert(t)
+		}
+		if t.Elem() != v.Type() && t.Elem().Kind() == reflect.Ptr {
+			// pointer to a pointer type: build the inner pointer first (it
+			// may be a named pointer type as well)
+			v = pointerize(t.Elem(), base, v)
+			if v.Type() != t.Elem() {
+				break
+			}
+		}
 		v = addressOf(v)
 	}
 	return v
